@@ -1,0 +1,24 @@
+//go:build verif
+// +build verif
+
+package memcache
+
+import (
+	"bufio"
+	"io"
+)
+
+// VerifNewServerConn builds a server connection over any in-memory stream
+// (test-only, -tags verif).
+func VerifNewServerConn(rwc io.ReadWriteCloser) *ServerConn {
+	c := new(ServerConn)
+	c.RemoteAddr = "verif"
+	c.rwc = rwc
+	c.rbuf = bufio.NewReader(rwc)
+	c.wbuf = bufio.NewWriter(rwc)
+	c.req = new(Request)
+	return c
+}
+
+// VerifTokensFree reports how many request tokens are available.
+func VerifTokensFree() int { return len(RL.Chan) }
